@@ -303,6 +303,15 @@ def run_case(ck, desc):
         if nt >= 3:
             variants.append((f"{nt}-1 cells", np.full(nt - 1, pf_)))
             variants.append((f"{nt} cells in 2 columns ({nt} x 2)", np.full((nt, 2), pf_)))
+        # tables of pressures (several gauges per record) whose number of CELLS happens to equal the number of
+        # stamps while their length does not
+        if nt >= 4 and nt % 2 == 0:
+            half = np.full((nt // 2, 2), pf_)
+            variants += [(f"{nt // 2} records x 2 gauges (ndarray)", half), (f"2 x {nt // 2} (ndarray)", half.T.copy()), (f"{nt // 2} records x 2 gauges (DataFrame)", pd.DataFrame(half, columns=["gauge A", "gauge B"])), (f"{nt // 2} x 2 nested list", half.tolist())]
+        if nt >= 2:
+            variants.append((f"1 x {nt} (one row)", np.full((1, nt), pf_)))
+        if nt >= 8 and nt % 4 == 0:
+            variants.append((f"2 x 2 x {nt // 4}", np.full((2, 2, nt // 4), pf_)))
         for label, sch in variants:
             fresh, _, _, _, _ = sim.build(dict(desc, reused=False))
             try:
